@@ -110,5 +110,36 @@ CHECKS['C03'] = {
     'technique': 'path-sensitive symbolic summaries compared with spec formulas through one term normaliser',
 }
 
+CHECKS['C10'] = {
+    'level': 'Flow table of the dealing phase: each pending structure set by _begin_dealing flows from the matching Street attribute (live players only), '
+             'the stud hole-to-board fallback, the refusal-guard sets of the burn/hole/board/draw verifiers and their defaults, the dealee order key, '
+             'facings popped in order, draws re-queue the facing of the discarded card, betting gated by the all-clear guard, Street validation.',
+    'note': 'Decides the protocol clauses for every street definition and survivor set at once. Does NOT decide counts on concrete histories.',
+    'technique': 'def-use flow extraction on enumerated paths + guard-set comparison with spec terms',
+}
+CHECKS['C12'] = {
+    'level': 'Default show/muck decision, kill set, coverage of can_win_now (boards x hand types x pots, ties accepted), sibling agreement of the best-hand '
+             'expression with push_chips, tournament show-all constraints and showdown order, each as a path summary compared with a spec term.',
+    'note': 'Decides that the automatic decision is "show iff all-in or can win" and "kill iff cannot win" with a can-win test that over-approximates '
+            'winning. Does NOT decide equality of payoffs with the show-everything twin (a relation between runs).',
+    'technique': 'path summaries vs spec terms + sibling cross-check (can_win_now ~ push_chips)',
+}
+CHECKS['C13'] = {
+    'level': 'The opener term of each arm of the (exhaustive) match over Opening is compared with the rule table (position with signed blinds; low/high '
+             'up-card with the right ace convention and suit tie-break; best/lowest exposed hand, earliest seat on ties); rank orders of the two opening '
+             'lookups; heads-up reversal applied alike in the ante and blind accessors; bring-in condition; pruning of players who cannot act.',
+    'note': 'Decides the selection rule for every layout and every assignment of up-cards at once. Category tables of the opening lookups are decided '
+            'under C04. Does NOT decide concrete up-card assignments or the kicker order inside a category.',
+    'technique': 'symbolic summary of the opening match arms vs rule table',
+}
+CHECKS['C14'] = {
+    'level': 'Offer conditions of the run-out selection, single-writer rules for runout_count / street_return_* / selection flag, the consensus rule by '
+             'path conditions, validated-count = applied-count forwarding, board_count, the shared-row indexing (board // r before the return street), '
+             'the row arithmetic of deal_board and the even split over boards.',
+    'note': 'Decides the structural clauses for all preference vectors, selection orders and b, r at once. Does NOT decide completeness of every board '
+            'on concrete histories.',
+    'technique': 'single-writer (ownership) rules + path-condition case analysis vs spec terms',
+}
+
 ALL = [f'C{i:02d}' for i in range(1, 21)]
 NOT_APPLICABLE = {p: PENDING for p in ALL if p not in CHECKS}
